@@ -24,6 +24,7 @@ if _src not in sys.path:
 logging.disable(logging.CRITICAL)
 
 import hashstore.filehashstore as fhs  # noqa: E402
+from hashstore import HashStoreFactory  # noqa: E402
 import hashstore.filehashstore_exceptions as fhs_exc  # noqa: E402
 
 assert os.path.realpath(fhs.__file__).startswith(os.path.realpath(REPO) + os.sep), (
@@ -187,18 +188,24 @@ class World(object):
                 fhs.multiprocessing = real_mp
                 try:
                     with seam.activate(None, 0):
-                        self.store = fhs.FileHashStore(self.props(cfg))
+                        self.store = self._construct(cfg)
                 finally:
                     fhs.multiprocessing = SIM_MP
             else:
                 with seam.activate(self.run, getattr(seam._tl, "task", 0)):
-                    self.store = fhs.FileHashStore(self.props(cfg))
+                    self.store = self._construct(cfg)
         finally:
             if old is None:
                 os.environ.pop("USE_MULTIPROCESSING", None)
             else:
                 os.environ["USE_MULTIPROCESSING"] = old
         return self.store
+
+    def _construct(self, cfg):
+        if self.knobs.get("factory", True):
+            # the documented way: through the factory (README 'Getting started')
+            return HashStoreFactory.get_hashstore("hashstore.filehashstore", "FileHashStore", self.props(cfg))
+        return fhs.FileHashStore(self.props(cfg))
 
     def fork_view(self):
         """What a forked worker process sees: a private copy of ordinary attributes, shared
